@@ -289,6 +289,25 @@ pub fn check_text(ctx: &mut Ctx, text: &str, workload: &str) {
         let l2 = p2.to_instructions();
         let mut sig = String::from("reparse-differs:listing-equal-but-programs-unequal");
         let mut detail = json!({"printed": clip(&s, 600)});
+        // Every public component equal and only the (private) used-qubit cache differs: that is
+        // the cache defect C10 owns (stale qubits after a calibration was redefined), seen here
+        // through the derived `==`.  It gets its own exact signature.
+        if l2 == listing
+            && p2.calibrations == p.calibrations
+            && p2.frames == p.frames
+            && p2.memory_regions == p.memory_regions
+            && p2.waveforms == p.waveforms
+            && p2.gate_definitions == p.gate_definitions
+            && p2.circuits == p.circuits
+            && p2.extern_pragma_map == p.extern_pragma_map
+            && p2.get_used_qubits() != p.get_used_qubits()
+        {
+            sig = "reparse-differs:only-the-used-qubit-cache-differs".into();
+            detail["used_qubits"] = json!({
+                "original": format!("{:?}", p.get_used_qubits()),
+                "reparsed": format!("{:?}", p2.get_used_qubits()),
+            });
+        }
         if listing.len() != l2.len() {
             sig = format!("reparse-differs:instruction-count:{}", if l2.len() > listing.len() { "more" } else { "fewer" });
             detail["counts"] = json!([listing.len(), l2.len()]);
@@ -391,6 +410,7 @@ const BATTERY: &[&str] = &[
     "CONVERT a b", "EXCHANGE a b[1]", "LOAD a b c", "STORE a b c", "STORE a b 1", "STORE a b -1.5",
     "SUB a 1", "MUL a b", "DIV a 2.0", "GT a b c", "GE a b 1", "LE a b -1.0", "LT a b c[1]",
     "PRAGMA EXTERN f \"INTEGER (a : INTEGER)\"", "PRAGMA EXTERN g \"(a : mut REAL[3])\"", "PRAGMA p", "PRAGMA p \"d\"",
+    "DEFCAL X 0:\n    FENCE 5\nDEFCAL X 0:\n    FENCE 6", "X %LT", "CNOT %BIT %DAGGER", "DEFCIRCUIT C %HALT:\n    X %HALT",
     "DAGGER CONTROLLED FORKED RX(1, 2) 0 1 2", "X q", "X %q", "CPHASE(pi) 0 1", "XY(1.5) 0 1", "I 0",
     "DEFFRAME 0 \"a\":\n    K: 1\nDEFFRAME 1 \"b\":\n    K: 2\nDEFFRAME 2 \"c\":\n    K: 3\nDEFFRAME 3 \"d\":\n    K: 4",
 ];
